@@ -275,6 +275,9 @@ func (generator *ConverterGenerator) mappingForOption(context Context, converter
 		return OptionMapping{}
 	}
 
+	// an argument of the option can feed several assignments: it is printed once
+	mappedArguments := make(map[string]struct{})
+
 	i := 0
 	for _, assignment := range assignments {
 		i++
@@ -284,6 +287,13 @@ func (generator *ConverterGenerator) mappingForOption(context Context, converter
 		// no need for an argument if the assignment uses a constant value
 		if assignment.Value.Constant != nil {
 			continue
+		}
+
+		if assignment.Value.Argument != nil {
+			if _, mapped := mappedArguments[assignment.Value.Argument.Name]; mapped {
+				continue
+			}
+			mappedArguments[assignment.Value.Argument.Name] = struct{}{}
 		}
 
 		argName := fmt.Sprintf("arg%d", i)
